@@ -468,7 +468,11 @@ class TJPTransformer(Transformer[Any, Any]):
         return ("responsible", self._get_value(items[0]))
 
     def task_priority(self, items: list[Any]) -> tuple[str, int]:
-        return ("priority", int(self._get_value(items[0])))
+        priority = int(self._get_value(items[0]))
+        if not 1 <= priority <= 1000:
+            # 0 would silently count as the default 500 in the scheduler's sort key
+            raise ValueError(f"priority must be between 1 and 1000, not {priority}")
+        return ("priority", priority)
 
     def task_complete(self, items: list[Any]) -> tuple[str, float]:
         return ("complete", float(self._get_value(items[0])))
